@@ -199,7 +199,11 @@ class TaggedInt:
 
 
 def untag(v):
-    return v.value if isinstance(v, TaggedInt) else v
+    if isinstance(v, TaggedInt):
+        return v.value
+    if type(v).__name__ == 'NPScalar':      # numpy scalars take part in arithmetic as their value
+        return v.value
+    return v
 
 
 class Frame:
